@@ -99,6 +99,39 @@ func init() {
 			rep.count("scenario:meta-area-grows-out-of-the-data-free-list", 1)
 			runOracleHistory(rep, cfg, ops, hseed, "", nil, nil)
 		}
+		// directed family B: a bounded file whose last pages below the limit are taken by a growth of the meta area
+		// (a contiguous region from the end of the file), followed by overflow-enabled transactions that need
+		// more meta pages than are left: the overflow pages must not alias pages the file already uses
+		for i := 0; i < nH/6; i++ {
+			hseed := r.Int63()
+			hr := rand.New(rand.NewSource(hseed))
+			pages := 64 + hr.Intn(16)
+			cfg := engine.Config{PageSize: 1024, MaxSize: uint64(pages) * 1024}
+			left := 2 + hr.Intn(4)
+			ops := []engine.Op{{Kind: "begin"}}
+			for todo := pages - 2 - left; todo > 0; {
+				k := 1 + hr.Intn(20)
+				if k > todo {
+					k = todo
+				}
+				ops = append(ops, engine.Op{Kind: "alloc", N: k})
+				todo -= k
+			}
+			for j := 0; j < 10; j++ {
+				ops = append(ops, engine.Op{Kind: "setfull", P: j * 5, Seed: 1 + hr.Intn(1000)})
+			}
+			ops = append(ops, engine.Op{Kind: "commit"})
+			for t := 2 + hr.Intn(4); t > 0; t-- {
+				ops = append(ops, engine.Op{Kind: "begin", Overflow: t%2 == 1 || hr.Intn(2) == 0, WALLimit: 1000})
+				for j := 1 + hr.Intn(3); j > 0; j-- {
+					ops = append(ops, engine.Op{Kind: "setfull", P: hr.Intn(1 << 16), Seed: 1 + hr.Intn(1000)})
+				}
+				ops = append(ops, engine.Op{Kind: "commit"}, engine.Op{Kind: "verify"})
+			}
+			ops = append(ops, engine.Op{Kind: "reopen"}, engine.Op{Kind: "verify"})
+			rep.count("scenario:meta-area-takes-the-last-pages-then-overflow", 1)
+			runOracleHistory(rep, cfg, ops, hseed, "", nil, nil)
+		}
 		rep.ModelCalls = m.N
 		return rep.finish(f)
 	})
